@@ -255,6 +255,21 @@ static void dispatch(const std::string& op, vh::Reader& r, vh::Out& o)
 		}
 		put(o, Matrix(g));
 	}
+	else if(op == "blockm")
+	{
+		// the same constructor on a grid of matrix arguments: tables, objects with a call history, live objects
+		long gr = r.integer();
+		std::vector<std::vector<Matrix>> g;
+		for(long a = 0; a < gr; a++)
+		{
+			long gc = r.integer();
+			std::vector<Matrix> row;
+			for(long b = 0; b < gc; b++)
+				row.push_back(rd_mat(r));
+			g.push_back(row);
+		}
+		put(o, Matrix(g));
+	}
 	// ---- the laws of the property, evaluated on the implementation's own results ----
 	else if(op == "law_trprod")
 	{
